@@ -158,7 +158,9 @@ def imu_table(rng, n=20):
 
 
 def increments(rng, n=20, t0=0.0):
-    return gen.increments_table(int(rng.randint(2 ** 31)), n, t0=t0, kind='uniform', theta_max=0.02, dv_max=0.5, vertical=-9.8)
+    inc = gen.increments_table(int(rng.randint(2 ** 31)), n, t0=t0, kind='uniform', theta_max=0.02, dv_max=0.5, vertical=-9.8)
+    inc.index.name = [None, 'time', 'gps_seconds'][int(rng.randint(3))]     # the caller's index (and its name) belongs to the caller
+    return inc
 
 
 def lla_points(rng, n=6):
@@ -429,12 +431,17 @@ def registry():
 
         def call(dt, th, x_):
             m = est_model(np.random.RandomState(3))
+            other = est_model(np.random.RandomState(4), False)       # a second instance must not see the first one's estimates
+            g0 = m.get_estimates()                                   # a fresh instance, never reset: all zeros
             m.update_estimates(x_[:m.n_states])
+            g1 = m.get_estimates()
+            g_other = other.get_estimates()
+            c_other = other.correct_increments(dt.iloc[0], th.iloc[0])
             m.reset_estimates()
             m.update_estimates(x_[:m.n_states])
             a = m.correct_increments(dt, th)
             b = m.correct_increments(dt.iloc[0], th.iloc[0])
-            return a, b, m.get_estimates()
+            return a, b, m.get_estimates(), g0, g1, g_other, c_other
         return call, [inc['dt'], inc[['theta_x', 'theta_y', 'theta_z']], x], {}
 
     @reg('inertial_sensor.Parameters.apply', kind='same_as_arg0')
